@@ -2,7 +2,7 @@
 EXTENDS Console
 KindsAll     == AllKinds
 KindsRetry   == {"final", "garbage", "trunc", "lost", "xerr", "badsig"}
-KindsForge   == {"final", "unauth", "wrongsid", "badsig", "badpad", "stale"}
+KindsForge   == {"final", "unauth", "unauthmine", "wrongsid", "badsig", "badpad", "stale"}
 KindsDesync  == {"final", "late", "dup", "stale", "lost"}
 KindsSessionless == {"final", "garbage", "trunc", "lost", "xerr", "late", "dup", "stale"}
 CodesAll == Codes
@@ -15,6 +15,9 @@ CmdsGH == {"G", "H"}
 CmdsAGH == {"A", "G", "H"}
 CodesOkErr == {"ok", "err"}
 CmdsAB == {"A", "B"}
+CmdsABX == {"A", "B", "X"}
+CmdsAX == {"A", "X"}
+RefusedDef == {"X"}
 CmdsAC == {"A", "C"}
 CmdsCR == {"C", "R"}
 =============================================================================
